@@ -3,6 +3,8 @@
 package bag
 
 import (
+	"encoding/json"
+	"math/big"
 	"strings"
 
 	"github.com/ohler55/ojg/jp"
@@ -144,6 +146,14 @@ func ObjectToBag(s *slip.Scope, obj slip.Object, depth int) (v any) {
 			}
 		}
 		v = list
+	case *slip.Bignum:
+		// Same as the parsers, an integer outside the int64 range is kept as
+		// a json.Number and not converted to a string.
+		if bi := (*big.Int)(val); bi.IsInt64() {
+			v = bi.Int64()
+		} else {
+			v = json.Number(bi.String())
+		}
 	case *flavors.Instance:
 		if val.Type != flavor {
 			slip.TypePanic(s, depth, "value", val, "nil", "t", ":false", "integer", "float", "string", "symbol", "gi::time",
